@@ -88,7 +88,10 @@ def map_viewbox_to_otsvg_space(
             scale_viewbox_to_font_metrics(view_box, ascender, descender, width),
             # shift things in the [+x,-y] quadrant where OT-SVG expects them
             Affine2D(1, 0, 0, 1, 0, -ascender),
+            # the user transform is given in font coordinates (y up); OT-SVG is y down
+            Affine2D.flip_y(),
             user_transform,
+            Affine2D.flip_y(),
         ]
     )
 
